@@ -91,6 +91,25 @@ func DrawStructural(rt *rapid.T, o StructOpt) *Subject {
 			}
 		}
 	}
+	if len(env.GenericInsts) > 0 {
+		// the instantiations of one generic struct side by side: as fields of one struct (in declaration order: the one
+		// without references first), as elements and on their own
+		var insts []*progen.Type
+		for _, d := range env.GenericInsts {
+			insts = append(insts, progen.NamedT(d))
+		}
+		cand := []*progen.Type{Carrier(env, "WG", insts...)}
+		for _, it := range insts {
+			cand = append(cand, progen.SliceOf(it), progen.PtrTo(it))
+		}
+		for _, t := range cand {
+			k := progen.AssignKey(t)
+			if !seen[k] && (o.TypeOK == nil || o.TypeOK(t)) {
+				seen[k] = true
+				types = append(types, t)
+			}
+		}
+	}
 	if o.Carriers && len(types) >= 3 {
 		k := rapid.IntRange(0, len(types)-3).Draw(rt, "carrier-start")
 		for j := 0; j < 2 && k+3*j+3 <= len(types); j++ {
